@@ -366,3 +366,9 @@ def mock_api(rep, repo):
             rep.violate('C06.mockapi', mod, x, f'{root}.{".".join(chain)}', f'{mod.name} uses {root}.{".".join(chain)} but the pure-Python stand-in {"MockCuda" if root == "cuda" else "MockNumba"} does not provide it: '
                         f'the GPU-kernel code path raises AttributeError without CUDA', node=x)
     rep.floor('cuda/numba attributes used', n, 6)
+
+
+def thorough(rep, repo):
+    """Thorough tier: the quick rules plus checker self-validation on the C06 slice of the mutation corpus."""
+    from kvstatic import thorough as thorough_mod
+    thorough_mod.selftest_slice(rep, repo, 'C06')
